@@ -12,7 +12,9 @@ def configs(tier, seed):
         cfgs.append(dict(fn="opf_accuracy", L=L, K=K, fork_counts=True, weight=w * 40, wstride=3 if L <= 3 else 29))
         cfgs.append(dict(fn="confusion_matrix", L=L, K=K, fork_labels=big, weight=w, wstride=1 if not big else 7))
         cfgs.append(dict(fn="purity", L=L, K=K, fork_labels=big, weight=w * 2, wstride=1 if not big else 7))
-        cfgs.append(dict(fn="opf_accuracy_per_label", L=L, K=K, fork_labels=True, weight=w * 2, wstride=3 if L <= 3 else 29))
+        if L <= 6 and K ** L <= 1100:
+            # labels are forked and every sample forks on label != pred: K^L * 2^L paths
+            cfgs.append(dict(fn="opf_accuracy_per_label", L=L, K=K, fork_labels=True, weight=w * 2, wstride=3 if L <= 3 else 29))
     # lists instead of arrays (the API accepts both)
     cfgs.append(dict(fn="opf_accuracy", L=3, K=2, fork_counts=True, as_list=True, weight=10, wstride=1))
     cfgs.append(dict(fn="confusion_matrix", L=3, K=2, as_list=True, weight=10, wstride=1))
